@@ -214,6 +214,12 @@ class Validator:
             # error applies to the root type
             d = rootdict
             key = d["__type__"]
+        elif isinstance(path[-1], int) and not isinstance(error.instance, dict):
+            # the error is on an item of a list-valued keyword e.g. SIZE 10.5 20
+            while isinstance(path[-1], int):
+                path = path[:-1]
+            key = path[-1]
+            d = dictutils.findkey(rootdict, *path[:-1])
         elif isinstance(path[-1], int):
             # the error is on an object in a list
             d = dictutils.findkey(rootdict, *path)
